@@ -13,6 +13,7 @@ for id in $ids; do
   d=/verif/seeded/$id
   prop=$(python3 -c "import json;print(json.load(open('$d/meta.json'))['property'])")
   extra=$(python3 -c "import json;print(' '.join(json.load(open('$d/meta.json')).get('also_run',[])))")
+  [ -n "$NOEXTRA" ] && extra=""
   if git -C $WT apply --check $d/patch.diff 2>/dev/null; then git -C $WT apply $d/patch.diff; else echo "$id PATCH-DOES-NOT-APPLY" >> $OUT; continue; fi
   for p in $prop $extra; do
     o=$(bin/check $p --tier quick 2>&1); rc=$?
